@@ -1181,6 +1181,16 @@ def c02g(chk):
             chk.ob("C02.g", "ln_factorial/ln-taken-exactly-once", ln_ok, lf.loc(),
                    "ln_factorial(x) = ln(x!): the logarithm is taken either when the table is filled or when it is read, not both and not neither "
                    "(table stores %s, ln() applied to the value read %d time(s))" % ("ln(i!)" if stores_ln else "i!", n_ln))
+    lg = chk.fn("sfs_core::utils::gamma::ln_gamma")
+    if lg is not None:
+        import rules_fact as RF
+        ok_g, why_g = RF.ln_gamma_upper_branch(prog, lg)
+        for c_ in prog.closures_of(lg.path):
+            chk.fns_analysed.add(c_.path)
+        chk.ob("C02.g", "ln_gamma/x>=0.5=ln(S)+C+(x-0.5)ln((x-0.5+r)/e)", ok_g is not False, lg.loc(),
+               "beyond the table ln n! = ln_gamma(n + 1) runs through the x >= 0.5 branch; read as an expression it must be the Lanczos form "
+               "ln(d_0 + sum_k d_k / (x + k - 1)) + ln(2 sqrt(e / pi)) + (x - 0.5) ln((x - 0.5 + r) / e) with the reviewed r and d_k "
+               "(the x < 0.5 reflection branch is never reached from ln_factorial and is not judged): %s" % why_g)
     hp = chk.fn(HYPERGEOM)
     if hp is not None:
         form = log_form(prog, hp, {1: ("lin", {1: 1}, 0), 2: ("lin", {2: 1}, 0), 3: ("lin", {3: 1}, 0), 4: ("lin", {4: 1}, 0)})
